@@ -82,7 +82,9 @@ def random_scenarios(rng, n, length):
             else:
                 fdref = {"ref": p[0] if rng.random() < 0.85 else p[1]} if p else other
                 dst = None if rng.random() < 0.90 else rng.choice([RO, 0x9000, DATA + 0x200 - 1, DATA + 0x200 - 3, DATA + 0x200 - 8])
-                b.read(rng, fdref, rng.choice([0, 1, 2, 3, 4, 8, 16, 64]), dst)
+                # now and then a request far beyond anything buffered (a read returns min(request, available) whatever the request)
+                n_req = rng.choice([0, 1, 2, 3, 4, 8, 16, 64]) if rng.random() < 0.9 else rng.choice([1 << 31, 1 << 32, 1 << 40, 0x7ffff001, (1 << 32) + 5, 1 << 63])
+                b.read(rng, fdref, n_req, dst)
         scs.append(b.scenario())
     return scs
 
@@ -166,12 +168,13 @@ def project(scenarios, events, rep):
                 else:
                     fd = resolve(evs, pc["fd"])
                     t["fd"] = fd if 0 <= fd < (1 << 30) else -1
-                    t["n"] = pc["n"]
+                    t["n"] = min(pc["n"], 1 << 30)            # model image of "more than anything buffered / mapped"
                     if pc["kind"] == "write":
                         t["data"] = pc["data"]
                         t["srcok"] = DATA <= pc["src"] and pc["src"] + pc["n"] <= DATA + 0x200
                     else:
                         room = min(pc["n"], DATA + 0x200 - pc["dst"]) if DATA <= pc["dst"] < DATA + 0x200 else 0
+                        room = min(room, 0x200)
                         t["dstroom"] = room
                         t["dstmapped"] = DATA <= pc["dst"] < DATA + 0x200
                         if room:
